@@ -12,7 +12,7 @@ SIGMA_M_STRUCT = ['a', '1', '$', '#', '.', '*', '>', '+', '^', '(', ')', '[', ']
 
 # token-level markup units that cannot be spelled within the character bound
 UNITS_M = ['a', 'ul', 'lorem', 'lorem5-', 'lorem-', 'label', 'input', '$#', '${1}', '${1:x}', '${a}', '*3', '*', '$$@-3', '$@^',
-           '{t}', '[a=b]', '[a="b c"]', '["q"]', '[', ']', '{', '}', '.c', '#i', '.', '/', '>', '+', '^', '(', ')', ' ', '"', '-',
+           '{t}', '{l1\nl2 ${1:x}}', '[a=b]', '[a="b c"]', '["q"]', '[', ']', '{', '}', '.c', '#i', '.', '/', '>', '+', '^', '(', ')', ' ', '"', '-',
            '!', ':', '\\', NBSP, 'é', '٣', 'A']
 
 # stylesheet abbreviation characters: t = transparent, f/a = hex letters, 0 vs 1 because 0 is unit-less
